@@ -125,12 +125,22 @@ def subscribe(
         cast(Instrumentation, instrumentation).on_execution_end()
         return response_stream
 
+    def _on_failure(err):
+        # The subscription is refused (or its source cannot be created): the
+        # execution stage that was started ends before the error is raised.
+        cast(Instrumentation, instrumentation).on_execution_end()
+        raise err
+
+    try:
+        source_stream = create_source_event_stream(
+            executor, root_type, operation, initial_value
+        )
+    except Exception as err:
+        _on_failure(err)
+
     return runtime.ensure_wrapped(
         runtime.map_value(
-            create_source_event_stream(
-                executor, root_type, operation, initial_value
-            ),
-            _on_stream_created,
+            source_stream, _on_stream_created, else_=(Exception, _on_failure),
         )
     )
 
